@@ -9,7 +9,7 @@ export GOFLAGS=-mod=mod GOPROXY=off; unset GOTOOLCHAIN GOSUMDB
 # the demos create their scratch modules below these directories; a directory that already exists belongs to a seeding
 # agent that is still at work and is neither emptied nor removed
 MADE=""
-for d in /tmp/seedwork-$P /tmp/seedwork-${P}r2 /tmp/seedwork-${P}r3 /tmp/seedwork-${P}r4 /tmp/seedwork-${P}r5 /tmp/seedwork-${P}r6; do
+for d in /tmp/seedwork-$P /tmp/seedwork-${P}r2 /tmp/seedwork-${P}r3 /tmp/seedwork-${P}r4 /tmp/seedwork-${P}r5 /tmp/seedwork-${P}r6 /tmp/seedwork-${P}r7 /tmp/seedwork-${P}r8; do
   if [ ! -e "$d" ]; then mkdir -p "$d"; MADE="$MADE $d"; fi
 done
 WT=$(mktemp -d /tmp/seedwt-XXXXXX); rmdir $WT
